@@ -116,7 +116,7 @@ def bounds(tier):
 
 
 def shards(tier):
-    return [("stacks", li, mi) for li in range(NLIBS) for mi in range(len(POOL))] + [("write", li) for li in range(NLIBS)] + [("leak", mi) for mi in range(len(POOL))]
+    return [("stacks", li, mi) for li in range(NLIBS) for mi in range(len(POOL))] + [("write", li) for li in range(NLIBS)] + [("direct", li) for li in range(NLIBS)] + [("leak", mi) for mi in range(len(POOL))]
 
 
 def run_stack(li, idxs, acc, judged_prefixes):
@@ -196,6 +196,52 @@ def run_stack(li, idxs, acc, judged_prefixes):
         cur = out
 
 
+def run_direct(li, acc):
+    """The per-block route: transform_block(block, library) of a copy-mode block middleware, called directly (as a user
+    middleware composing shipped ones does), leaves block and library alone and hands back nothing of them."""
+    for mi, (label, fac) in enumerate(POOL):
+        m = fac()
+        if not hasattr(m, "transform_block") or label.startswith("SortBlocks"):
+            continue
+        lib = base_library(li)
+        snap = canon(lib)
+        for bi, block in enumerate(list(lib.blocks)):
+            case = {"direct_library": li, "middleware": label, "pool_idx": mi, "block_index": bi}
+            acc.trace()
+            acc.case(nontrivial_key=("direct", li, mi, bi))
+            try:
+                out = m.transform_block(block, lib)
+            except RecursionError:
+                acc.raised["RecursionError"] += 1
+                continue
+            except Exception as e:
+                if canon(lib) != snap:
+                    acc.violation(
+                        {"oracle": "transform_block_input_unchanged", "middleware": label.split("(")[0], "path": "raised"},
+                        {"case": case, "observed": f"input changed although the call raised {type(e).__name__}", "expected": "equal to its snapshot"},
+                        size=li,
+                    )
+                    break
+                acc.raised[type(e).__name__] += 1
+                continue
+            acc.step(("direct", li, bi), label, canon(out))
+            if canon(lib) != snap:
+                acc.violation(
+                    {"oracle": "transform_block_input_unchanged", "middleware": label.split("(")[0], "path": "returned"},
+                    {"case": case, "observed": "block or library changed by transform_block", "expected": "equal to its snapshot"},
+                    size=li,
+                )
+                break
+            al = alias(block, out) if out is not None else []
+            if al:
+                acc.violation(
+                    {"oracle": "transform_block_output_shares_nothing_with_input", "middleware": label.split("(")[0], "shared": type(al[0]).__name__},
+                    {"case": case, "observed": [describe(o) for o in al[:4]], "expected": "no shared mutable object"},
+                    size=li,
+                )
+                break
+
+
 def run_write(li, acc):
     for spec in FORMATS:
         for stack_kw in ({}, {"prepend_middleware": []}):
@@ -231,6 +277,9 @@ def run_shard(shard, tier, acc):
     if shard[0] == "write":
         run_write(shard[1], acc)
         return
+    if shard[0] == "direct":
+        run_direct(shard[1], acc)
+        return
     if shard[0] == "leak":
         # one long-lived instance over all libraries (forwards and backwards) must behave like fresh instances
         label, fac = POOL[shard[1]]
@@ -252,7 +301,9 @@ def run_shard(shard, tier, acc):
 
 
 def replay(case, acc):
-    if "stack_idx" in case:
+    if "direct_library" in case:
+        run_direct(case["direct_library"], acc)
+    elif "stack_idx" in case:
         run_stack(case["library"], tuple(case["stack_idx"]), acc, set())
     else:
         run_write(case["write_library"], acc)
